@@ -55,7 +55,10 @@ Definition rt_tag (r : rtype) : Z :=
 Definition vt_eqb a b := vt_tag a =? vt_tag b.
 Definition rt_eqb a b := rt_tag a =? rt_tag b.
 
-(* A content item.  v1/v2: CODE value | TEXT id | UID id | NUM value (v1);
+(* A content item.  v1/v2: CODE value | TEXT id | UID id;
+   NUM: v1 = MeasuredValueSequence[0].NumericValue (the DS element, as the number float() makes of it),
+        v2 = MeasuredValueSequence[0].FloatingPointValue (FD): 0 = attribute absent, otherwise `fp_code x`
+        (numbers are abstract integers - injective keys of doubles; see num_value below);
    IMAGE / COMPOSITE: referenced SOP class (v1) and instance (v2);
    SCOORD / SCOORD3D: graphic type (v1).  tmpl: ContentTemplateSequence[0].TemplateIdentifier *)
 Inductive item := Item (nm : Z) (vt : vtype) (rl : rtype) (v1 v2 : Z) (tmpl : option Z) (kids : list item).
@@ -304,8 +307,16 @@ Definition acc_finding_type g := first_v1 (find_items (kids g) (Some cFinding) (
 Definition acc_finding_category g := first_v1 (find_items (kids g) (Some cFindingCategory) (Some CODE) None).
 Definition acc_method g := first_v1 (find_items (kids g) (Some cMethod) (Some CODE) None).
 Definition acc_finding_sites g := map v1 (find_items (kids g) (Some cFindingSite) (Some CODE) None).
+(* value_types.py NumContentItem.value (behind Measurement.value of every measurement get_measurements returns):
+     try: return float(item.FloatingPointValue)  except AttributeError: return float(item.NumericValue)
+   The exact FD attribute has precedence over the DS string (at most 16 characters once encoded).
+   fp_code : Z -> Z \ {0} is a bijection, so every number can be carried next to the `absent` mark 0. *)
+Definition fp_code (x : Z) : Z := if 0 <=? x then x + 1 else x.
+Definition num_fp (i : item) : option Z :=
+  if v2 i =? 0 then None else Some (if 0 <? v2 i then v2 i - 1 else v2 i).
+Definition num_value (i : item) : Z := match num_fp i with Some x => x | None => v1 i end.
 Definition acc_measurements g (name : option Z) : list (Z * Z) :=
-  map (fun i => (nm i, v1 i)) (find_items (kids g) name (Some NUM) None).
+  map (fun i => (nm i, num_value i)) (find_items (kids g) name (Some NUM) None).
 Definition eval_excluded := [cFindingCategory; cGeomPurpose; cFinding; cFindingSite; cMethod].
 Definition acc_evaluations g (name : option Z) : list (Z * Z) :=
   map (fun i => (nm i, v1 i))
@@ -693,6 +704,32 @@ Definition run_tree_accessors (root : item) (mname ename : option Z) : val :=
           [Planar; Volumetric; ImageK]).
 Definition run_accessors (pre : list item) (gs : list group) (mname ename : option Z) : val :=
   run_tree_accessors (report pre gs) mname ename.
+
+(* ---- measurement values across DICOM encoding ------------------------------------------------------------------- *)
+(* `map_num fn` rewrites (Numeric Value, Floating Point Value code) of every NUM item of a tree and nothing else. *)
+Fixpoint map_num (fn : Z -> Z -> Z * Z) (i : item) {struct i} : item :=
+  match i with
+  | Item n v r a b t k =>
+      let ab := match v with NUM => fn a b | _ => (a, b) end in
+      Item n v r (fst ab) (snd ab) t (map (map_num fn) k)
+  end.
+(* Writing a content tree into a DICOM data set / file and reading it back: every item comes back as it was,
+   except that Numeric Value (VR DS) survives only as its decimal string of at most 16 characters: the number
+   read back is `trunc x` (external: pydicom's DS formatting; any function here).  FD is exact. *)
+Definition encode (trunc : Z -> Z) : item -> item := map_num (fun a b => (trunc a, b)).
+(* sr.Measurement / NumContentItem.__init__: Numeric Value is always written; Floating Point Value is written
+   (with the same number) iff the value was given as a Python float: `fl x` *)
+Definition with_fp (fl : Z -> bool) : item -> item := map_num (fun a b => (a, if fl a then fp_code a else b)).
+(* a finite description of trunc / fl, as the correspondence run passes them *)
+Definition tbl_fun (tbl : list (Z * Z)) (x : Z) : Z :=
+  match find (fun p => fst p =? x) tbl with Some p => snd p | None => x end.
+(* accessors of every group of a report built from records whose measurement values `floats` were given as
+   Python floats, after the report went through DICOM encoding with DS behaviour `tbl` ([] : not encoded) *)
+Definition run_accessors_enc (floats : list Z) (tbl : list (Z * Z)) (pre : list item) (gs : list group)
+                             (mname ename : option Z) : val :=
+  run_tree_accessors (encode (tbl_fun tbl) (with_fp (fun x => mem x floats) (report pre gs))) mname ename.
+Definition run_tree_accessors_enc (tbl : list (Z * Z)) (root : item) (mname ename : option Z) : val :=
+  run_tree_accessors (encode (tbl_fun tbl) root) mname ename.
 
 (* ---- what the template classes ACCEPT: the argument checks of the constructors ---------------------------------- *)
 (* content.py ReferencedSegment.__init__ / VolumeSurface.__init__:
